@@ -315,6 +315,22 @@ func runSpec(path string) {
 			os.Stdout.WriteString(fmt.Sprintf("\nITERATIONS-DONE %d\n", it))
 		}
 	}
+	// further workflows of the same program, run concurrently with the main one
+	var alsoDone []chan struct{}
+	for _, a := range s.Also {
+		wfa, _ := buildWorkflow(a)
+		ch := make(chan struct{})
+		alsoDone = append(alsoDone, ch)
+		go func() {
+			wfa.Run()
+			close(ch)
+		}()
+	}
+	defer func() {
+		for _, ch := range alsoDone {
+			<-ch
+		}
+	}()
 	wf, nodes := buildWorkflow(s)
 	switch s.Run.Mode {
 	case "", "run":
